@@ -2,6 +2,7 @@
 import r_regex
 import r_opt
 import r_tree
+import r_cli
 
 EXPLANATION = (
     "Constant + regex-AST audit and decision-table extraction (no matching is performed, no string is rewritten): the "
@@ -23,4 +24,4 @@ ASSUMPTIONS = ["the `regex` crate implements the syntax as documented; leftmost-
 
 def run(ctx):
     # a long-bracket string directly after `[` is re-lexed as a different literal: the bracket guard is a C04 clause too
-    return [r_regex.rule_regex(ctx, "C04"), r_opt.rule_quote(ctx, "C04"), r_tree.rule_bracket(ctx, "C04")]
+    return [r_regex.rule_regex(ctx, "C04"), r_opt.rule_quote(ctx, "C04"), r_tree.rule_bracket(ctx, "C04"), r_cli.rule_exact_read(ctx, "C04")]
